@@ -167,6 +167,34 @@ class Ctx:
         shutil.rmtree(os.path.join(wd, "md"), ignore_errors=True)
         return res
 
+    def apalache(self, specdir, module, args, expect_error=False, timeout=900, tag=None):
+        """Apalache (symbolic) run on specs/<specdir>/<module>.tla in a private scratch directory. The outcome must
+        be NoError (or, for a vacuity guard, Error); anything else - tool failure, timeout - is inconclusive."""
+        tag = tag or ("apalache_" + module + "_" + hashlib.sha1(" ".join(args).encode()).hexdigest()[:8])
+        wd = os.path.join(self.scratch, "apalache", tag)
+        os.makedirs(wd, exist_ok=True)
+        for f in glob.glob(os.path.join(VERIF, "specs", specdir, "*")):
+            if os.path.isfile(f):
+                shutil.copy(f, wd)
+        t0 = time.time()
+        try:
+            r = subprocess.run(["apalache-mc", "check", "--out-dir=" + os.path.join(wd, "out")] + list(args) + [module + ".tla"],
+                               cwd=wd, capture_output=True, text=True, timeout=timeout)
+        except subprocess.TimeoutExpired:
+            subprocess.run(["pkill", "-f", "apalache.*" + re.escape(wd)[:-1] + "[" + wd[-1] + "]"])
+            raise Inconclusive("Apalache timed out after %ds (%s %s)" % (timeout, module, " ".join(args)))
+        out = r.stdout + r.stderr
+        m = re.search(r"The outcome is: (\w+)", out)
+        outcome = m.group(1) if m else "none"
+        wall = round(time.time() - t0, 1)
+        self.cov["tlc_runs"].append({"tool": "apalache", "module": module, "args": " ".join(args), "outcome": outcome, "wall_s": wall})
+        log("Apalache %s %s: %s, %.1fs" % (module, " ".join(args), outcome, wall))
+        want = "Error" if expect_error else "NoError"
+        if outcome != want:
+            raise Inconclusive("Apalache: expected %s, got %s (%s %s):\n%s" % (want, outcome, module, " ".join(args), out[-2500:]))
+        shutil.rmtree(wd, ignore_errors=True)
+        return outcome
+
     def model_check(self, specdir, module, cfg, workers=None, timeout=900, emit=False, tag=None, count=True):
         """Exhaustive TLC run that must pass on the spec (a failure is a defect of the
         specification, i.e. inconclusive, never a verdict about the code)."""
